@@ -232,7 +232,17 @@ class PEmu(XS.Emu):
                 for p, q in zip(a, b):
                     if isinstance(p, BM) or isinstance(q, BM):
                         cp, cq = _mask_of(p), _mask_of(q)
-                        if cp is None or cq is None:
+                        if (cp is None) != (cq is None) and op in ("and", "andn"):
+                            # a mask selecting a value: the value where the mask is set, +0.0 elsewhere
+                            mk, val = (cp, q) if cp is not None else (cq, p)
+                            rv = _real(val)
+                            if rv is None or (op == "andn" and cp is None):
+                                out.append(None)
+                            elif op == "and":
+                                out.append(sp.Piecewise((rv, mk), (ZERO, True)))
+                            else:
+                                out.append(sp.Piecewise((ZERO, mk), (rv, True)))
+                        elif cp is None or cq is None:
                             out.append(None)
                         else:
                             out.append(BM({"and": sp.And(cp, cq), "or": sp.Or(cp, cq), "xor": sp.Xor(cp, cq), "andn": sp.And(sp.Not(cp), cq)}[op]))
@@ -452,6 +462,12 @@ def want_interval(op, a, b):
         if lo > 0 or hi < 0:
             return (1 / hi, 1 / lo), None
         return NAN, None
+    if op == "not":
+        if lo > 0 or hi < 0:
+            return (0, 0), None
+        if lo == 0 and hi == 0:
+            return (1, 1), None
+        return (0, 1), None
     b0, b1 = b
     if op == "min":
         return (min(lo, b0), min(hi, b1)), (1 if hi < b0 else (2 if b1 < lo else 3))
@@ -491,10 +507,11 @@ def want_interval(op, a, b):
 
 CLAUSES = {
     "point": ("max", "min", "and", "or", "compare"),
-    "interval": ("abs", "square", "recip", "sqrt", "max", "min", "and", "or", "compare"),
+    "interval": ("abs", "square", "recip", "sqrt", "max", "min", "and", "or", "compare", "not"),
     "grad_slice": ("abs", "max", "min", "compare"),
 }
-UNARY = ("abs", "square", "recip", "sqrt")
+UNARY = ("abs", "square", "recip", "sqrt", "not")
+BRANCH_FREE_TOO = ("not",)  # mask-selected results: one path, decided over the same order types
 CHOICE_OPS = ("max", "min", "and", "or")
 
 
@@ -529,7 +546,7 @@ def check_piecewise(rule, kind, root=None, only=None, choices=True):
             rule.lost("x86_64 %s %s" % (kind, name))
             continue
         ins0 = AC.stream(b, builders)
-        if not any(M.effect(x).kind in ("jcc", "setcc") for x in ins0 if x.label is None):
+        if op not in BRANCH_FREE_TOO and not any(M.effect(x).kind in ("jcc", "setcc") for x in ins0 if x.label is None):
             rule.skip("x86_64 %s %s" % (kind, name), "branch-free: decided by the lane / mask semantics rules", count=False)
             continue
         if b.helper_calls and any(n.startswith("call_fn") for n, _a, _c in b.helper_calls):
